@@ -883,7 +883,12 @@ func (ix *Index) populateDeleteClaim(ctx context.Context, cl schema.Claim, vr *j
 		log.Print(fmt.Errorf("no valid target for delete claim %v", br))
 		return nil
 	}
+	// We are called from ReceiveBlob before it takes ix.Lock, possibly while
+	// another blob is being committed and added to the corpus, and with a
+	// corpus GetBlobMeta reads its maps directly.
+	ix.RLock()
 	meta, err := ix.GetBlobMeta(ctx, target)
+	ix.RUnlock()
 	if err != nil {
 		if errors.Is(err, os.ErrNotExist) {
 			if err := ix.noteNeeded(br, target); err != nil {
